@@ -14,6 +14,7 @@ import (
 	"github.com/hashicorp/serf/serf"
 	"go.uber.org/zap"
 	"google.golang.org/grpc"
+	"google.golang.org/grpc/connectivity"
 	"google.golang.org/grpc/metadata"
 
 	"github.com/DrmagicE/gmqtt"
@@ -49,10 +50,11 @@ type VerifNet struct {
 	// DropHelloReply[a+">"+b] = n: the next n Hello replies from b to a are lost after b processed them
 	DropHelloReply map[string]int
 	// HoldAcks[a+">"+b] = true: acks from b are not delivered to a until released
-	HoldAcks       map[string]bool
-	pipes          map[string]*verifPipe // current pipe a>b
-	Dials          int
-	Retries        int
+	HoldAcks map[string]bool
+	pipes    map[string]*verifPipe // current pipe a>b
+	Dials    int
+	Hellos   int // handshakes answered by a peer
+	Retries  int
 }
 
 type VerifNode struct {
@@ -271,16 +273,26 @@ type verifPipe struct {
 	toServer []*Event
 	toClient []*Ack
 	broken   bool
+	conn     *grpc.ClientConn // the (real, never connected) connection object the stream belongs to
 	// CutAfterEvents / CutAfterAcks: break the pipe right after that many more messages
 	// have been delivered in that direction (-1 = never)
 	cutAfterEvents, cutAfterAcks int
 	sentEvents, sentAcks         int
 }
 
+// isBroken: cut by the fault injector, ended by the server handler, or the owner closed
+// the grpc connection of the stream (peer.stop, stream.setError), which ends a real stream
+func (p *verifPipe) isBroken() bool {
+	if !p.broken && p.conn != nil && p.conn.GetState() == connectivity.Shutdown {
+		p.broken = true
+	}
+	return p.broken
+}
+
 // Cut breaks the current stream from a to b (both directions of that stream).
 func (nw *VerifNet) Cut(a, b string) bool {
 	p := nw.pipes[a+">"+b]
-	if p == nil || p.broken {
+	if p == nil || p.isBroken() {
 		return false
 	}
 	p.broken = true
@@ -291,7 +303,7 @@ func (nw *VerifNet) Cut(a, b string) bool {
 // (events=true) or after n more acks reached a.
 func (nw *VerifNet) CutAfter(a, b string, events bool, n int) bool {
 	p := nw.pipes[a+">"+b]
-	if p == nil || p.broken {
+	if p == nil || p.isBroken() {
 		return false
 	}
 	if events {
@@ -305,7 +317,7 @@ func (nw *VerifNet) CutAfter(a, b string, events bool, n int) bool {
 // StreamUp reports whether a live stream a>b exists.
 func (nw *VerifNet) StreamUp(a, b string) bool {
 	p := nw.pipes[a+">"+b]
-	return p != nil && !p.broken
+	return p != nil && !p.isBroken()
 }
 
 var errVerifCut = errors.New("transport: stream cut by the fault injector")
@@ -313,6 +325,7 @@ var errVerifCut = errors.New("transport: stream cut by the fault injector")
 type verifFedClient struct {
 	nw       *VerifNet
 	from, to string
+	conn     *grpc.ClientConn
 }
 
 func verifIncoming(ctx context.Context) context.Context {
@@ -334,6 +347,7 @@ func (c *verifFedClient) Hello(ctx context.Context, in *ClientHello, _ ...grpc.C
 	if err != nil {
 		return nil, err
 	}
+	c.nw.Hellos++
 	if c.nw.DropHelloReply[key] > 0 {
 		c.nw.DropHelloReply[key]--
 		return nil, errVerifCut
@@ -366,7 +380,7 @@ func (c *verifFedClient) EventStream(ctx context.Context, _ ...grpc.CallOption) 
 	if old := c.nw.pipes[key]; old != nil {
 		old.broken = true
 	}
-	p := &verifPipe{key: key, cutAfterEvents: -1, cutAfterAcks: -1}
+	p := &verifPipe{key: key, cutAfterEvents: -1, cutAfterAcks: -1, conn: c.conn}
 	c.nw.pipes[key] = p
 	c.nw.Dials++
 	ss := &verifServerStream{p: p, ctx: verifIncoming(ctx)}
@@ -379,7 +393,7 @@ func (c *verifFedClient) EventStream(ctx context.Context, _ ...grpc.CallOption) 
 
 func (s *verifClientStream) Send(e *Event) error {
 	vsched.Point("fed.client.Send")
-	if s.p.broken {
+	if s.p.isBroken() {
 		return io.EOF
 	}
 	s.p.toServer = append(s.p.toServer, e)
@@ -387,8 +401,8 @@ func (s *verifClientStream) Send(e *Event) error {
 }
 
 func (s *verifClientStream) Recv() (*Ack, error) {
-	vsched.WaitUntil("fed.client.Recv", func() bool { return (len(s.p.toClient) > 0 && !s.nw.HoldAcks[s.p.key]) || s.p.broken })
-	if len(s.p.toClient) == 0 || s.p.broken && s.nw.HoldAcks[s.p.key] {
+	vsched.WaitUntil("fed.client.Recv", func() bool { return (len(s.p.toClient) > 0 && !s.nw.HoldAcks[s.p.key]) || s.p.isBroken() })
+	if len(s.p.toClient) == 0 || s.p.isBroken() && s.nw.HoldAcks[s.p.key] {
 		return nil, errVerifCut
 	}
 	a := s.p.toClient[0]
@@ -405,7 +419,7 @@ func (s *verifClientStream) CloseSend() error { s.p.broken = true; return nil }
 func (s *verifServerStream) Context() context.Context { return s.ctx }
 
 func (s *verifServerStream) Recv() (*Event, error) {
-	vsched.WaitUntil("fed.server.Recv", func() bool { return len(s.p.toServer) > 0 || s.p.broken })
+	vsched.WaitUntil("fed.server.Recv", func() bool { return len(s.p.toServer) > 0 || s.p.isBroken() })
 	if len(s.p.toServer) == 0 {
 		return nil, errVerifCut
 	}
@@ -420,7 +434,7 @@ func (s *verifServerStream) Recv() (*Event, error) {
 
 func (s *verifServerStream) Send(a *Ack) error {
 	vsched.Point("fed.server.Send")
-	if s.p.broken {
+	if s.p.isBroken() {
 		return errVerifCut
 	}
 	s.p.toClient = append(s.p.toClient, a)
@@ -465,6 +479,7 @@ func verifServePeer(p *peer) {
 			return
 		}
 		conn := verifConn()
+		client.conn = conn
 		s, err := p.initStream(client, conn)
 		if err != nil {
 			conn.Close()
